@@ -271,6 +271,63 @@ def shared_run(tier, seed):
     return out
 
 
+QNODES = {"quick": dict(shards=16, positions=14, kpk=22, maxdepth=2, cap=330), "thorough": dict(shards=16, positions=150, kpk=250, maxdepth=3, cap=6000)}
+
+
+def search_observed(R, tier, seed, fens_override=None):
+    """C17 on the real search: the move list of every quiescence node entered by completed searches (event sink),
+    validated by TLC against Tactical / Legal of ChessRules.tla (ChessTrace.tla, action TQNode)."""
+    T = QNODES[tier]
+    exe = vlib.build_harness()
+    work = tempfile.mkdtemp(prefix="qnodes_", dir=vlib.BUILD)
+    try:
+        seeds = vlib.load_fens(os.path.join(vlib.VERIF, "seeds", "rules.fen"))
+
+        def shard(i):
+            p = os.path.join(work, "qn_%d.ndjson" % i)
+            args = ["search-qnodes", "--seed", seed * 6151 + i, "--positions", T["positions"], "--kpk", T["kpk"], "--maxdepth", T["maxdepth"],
+                    "--max-nodes", T["cap"], "--out", p]
+            if fens_override is not None:
+                fl = os.path.join(work, "fens_%d.txt" % i)
+                open(fl, "w").write("\n".join(fens_override) + "\n")
+                args = ["search-qnodes", "--fens", fl, "--positions", 0, "--kpk", 0, "--maxdepth", max(3, T["maxdepth"]), "--max-nodes", 100000, "--out", p]
+            else:
+                mine = [" ".join(f.split()[:4]) for k, f in enumerate(seeds) if k % T["shards"] == i]
+                if mine:
+                    fl = os.path.join(work, "fens_%d.txt" % i)
+                    open(fl, "w").write("\n".join(mine) + "\n")
+                    args += ["--fens", fl]
+            summ = {}
+            for l in vlib.run_harness(exe, args, timeout=3000):
+                if l.startswith("{") and '"summary"' in l:
+                    summ = json.loads(l)
+            if os.path.getsize(p) == 0:
+                return p, summ, 0, None, []
+            matched, res, rej = validate_trace(p, "qn_%d" % i)
+            return p, summ, matched, res, rej
+        tot = {"searches": 0, "quiescence_nodes_entered": 0, "nodes_recorded": 0, "events_matched": 0}
+        for p, summ, matched, res, rej in vlib.parallel(shard, range(1 if fens_override is not None else T["shards"])):
+            for k in ("searches", "quiescence_nodes_entered", "nodes_recorded"):
+                tot[k] += summ.get(k, 0)
+            tot["events_matched"] += matched
+            if res is not None:
+                R.add_tlc(res)
+            for r in rej:
+                q = [e for e in r["game"] if e["ev"] == "qnode"]
+                for (pp, name) in r["failed"]:
+                    if pp == "C17" and q:
+                        R.violation("C17:search:%s" % q[-1]["fen"],
+                                    "C17 [quiescence node of a real search, sub-check %s] position '%s' (reached from '%s' at depth %s): the search examines %s; %s"
+                                    % (name, q[-1]["fen"], q[-1]["root"], q[-1]["d"], json.dumps(q[-1]["moves"]), r["diag"][:500]),
+                                    {"kind": "qnode", "root": q[-1]["root"], "node": q[-1]["fen"]})
+        R.coverage["search_observed_quiescence_nodes"] = tot
+        log("[C17] real searches: %d searches, %d quiescence nodes entered, %d distinct nodes validated by TLC, %d violations"
+            % (tot["searches"], tot["quiescence_nodes_entered"], tot["nodes_recorded"], len(R.violations)))
+    finally:
+        import shutil
+        shutil.rmtree(work, ignore_errors=True)
+
+
 def run(prop, tier, seed):
     shared = shared_run(tier, seed)
     R = vlib.Result(prop, tier, seed)
@@ -288,6 +345,8 @@ def run(prop, tier, seed):
     for v in shared["violations"]:
         if v["property"] == prop:
             R.violation(v["sig"], v["what"], v["replay"])
+    if prop == "C17":
+        search_observed(R, tier, seed)
     return R
 
 
@@ -297,7 +356,10 @@ def replay(prop, payload):
     R = vlib.Result(prop, "quick", 0)
     work = tempfile.mkdtemp(prefix="replay_", dir=vlib.BUILD)
     try:
-        if payload["kind"] == "states":
+        if payload["kind"] == "qnode":
+            search_observed(R, "quick", 1, fens_override=[payload["root"]])
+            R.sample(payload)
+        elif payload["kind"] == "states":
             p = os.path.join(work, "states.ndjson")
             with open(p, "w") as f:
                 for r in payload["records"]:
